@@ -41,8 +41,23 @@ def mk_precond_cadence(interval_kind):
 
   def t(ctx, it):
     m = it.load_module(DS)
-    interval = spec.fresh_int("preconditioning_compute_steps", lo=2) if interval_kind == "sym" else 1
-    opt = m.distributed_shampoo(0.1, block_size=8, preconditioning_compute_steps=interval)
+    scheduled = interval_kind.startswith("scheduled")
+    # ANY failure threshold (the placeholder error of non-refresh steps must be rejected by the gate whatever it is)
+    tau = spec.fresh_real("inverse_failure_threshold")
+    if scheduled:
+      # the interval in force at a step is the SCHEDULED one (contract of preconditioning_compute_steps_schedule: some
+      # integer >= 1, task `schedule`), whatever the configured starting interval is
+      configured = 1 if interval_kind == "scheduled-from-1" else spec.fresh_int("preconditioning_compute_steps", lo=2)
+      interval = spec.fresh_int("scheduled_interval", lo=1)
+      it.call_contracts["preconditioning_compute_steps_schedule"] = lambda *a, **k: T.asarray(interval)
+      LR = z3.Function("LR", z3.IntSort(), z3.RealSort())
+      opt = m.distributed_shampoo(lambda t_: SReal(LR(sym._as_int_z(t_.item() if isinstance(t_, T.Tensor) else t_))), block_size=8,
+                                  preconditioning_compute_steps=configured, decay_preconditioning_compute_steps=True,
+                                  inverse_failure_threshold=tau,
+                                  end_preconditioning_compute_steps=spec.fresh_int("end_preconditioning_compute_steps", lo=1))
+    else:
+      interval = spec.fresh_int("preconditioning_compute_steps", lo=2) if interval_kind == "sym" else 1
+      opt = m.distributed_shampoo(0.1, block_size=8, preconditioning_compute_steps=interval, inverse_failure_threshold=tau)
     env = opt.update.env.vars
     c13.GEN["metrics_cls"] = m.TrainingMetrics
     sz = spec.fresh_int("size", lo=1)
@@ -73,7 +88,7 @@ def mk_precond_cadence(interval_kind):
       name = sym._as_real_z(statistics[k].at((i_star, j_star)))
       root = SReal(RF(name, z3.IntVal(4), sz.z, i.z, j.z))
       err = SReal(EF(name, z3.IntVal(4), sz.z))
-      accepted = sym.ite(err >= 0.1, prev[k].at((i, j)), root)
+      accepted = sym.ite(err >= tau, prev[k].at((i, j)), root)
       if interval_kind == "one":
         ctx.oblige(f"{tag}.post.interval=1: every step refreshes: slot = gate(prev, Root(stat'))", got.at((i, j)) == accepted)
         ctx.oblige(f"{tag}.post.interval=1: diagnostics are the new error",
@@ -255,6 +270,8 @@ def tasks(tier):
   from contracts import c02
   ts = [Task("precond cadence[interval symbolic]", mk_precond_cadence("sym")),
         Task("precond cadence[interval=1]", mk_precond_cadence("one")),
+        Task("precond cadence[scheduled, configured interval 1]", mk_precond_cadence("scheduled-from-1")),
+        Task("precond cadence[scheduled, configured interval symbolic]", mk_precond_cadence("scheduled-from-n")),
         Task("_update_preconditioners_fn dispatch", t_dispatch), Task("efficient_cond", t_efficient_cond),
         Task("schedule", t_schedule), Task("update_fn phases/count (shared with C02)", c02.t_phases)]
   for b1 in (False, True):
